@@ -66,19 +66,22 @@ Definition ring_new (address : Z) : res ring :=
   let* las := las_set (repeat false las_size) address true in
   Ok (mkRing las LasUninitialized address address address).
 
-(* update_next_previous *)
+(* update_next_previous: the two `if let ... else if let ... else` chains over
+   iter_active_stations() (ascending) and its .rev() *)
+Definition next_of (ones : list Z) (ts : Z) : Z :=
+  match find (fun a => ts <? a) ones with
+  | Some n => n
+  | None => match ones with n :: _ => n | [] => ts end
+  end.
+Definition prev_of (ones : list Z) (ts : Z) : Z :=
+  match find (fun a => a <? ts) (rev ones) with
+  | Some p => p
+  | None => match rev ones with p :: _ => p | [] => ts end
+  end.
 Definition update_next_previous (r : ring) : ring :=
   let ones := las_ones (r_las r) in
   let ts := r_ts r in
-  let ns := match find (fun a => ts <? a) ones with
-            | Some n => n
-            | None => match ones with n :: _ => n | [] => ts end
-            end in
-  let ps := match find (fun a => a <? ts) (rev ones) with
-            | Some p => p
-            | None => match rev ones with p :: _ => p | [] => ts end
-            end in
-  mkRing (r_las r) (r_state r) ts ns ps.
+  mkRing (r_las r) (r_state r) ts (next_of ones ts) (prev_of ones ts).
 
 (* verify_las_from_token_pass *)
 Definition verify_las (r : ring) (sa da : Z) : res bool :=
@@ -133,3 +136,49 @@ Definition remove_station (r : ring) (address : Z) : res ring :=
 
 Definition ready_for_ring (r : ring) : bool :=
   match r_state r with LasValid => true | _ => false end.
+
+(* impl Debug for TokenRing: the addresses are copied into `[0u8; 127]` by index, which is out
+   of bounds for the 128th active station. *)
+Definition debug_active (r : ring) : res (list Z) :=
+  let ones := las_ones (r_las r) in
+  if Nat.leb (length ones) 127 then Ok ones else Panic SiteIndex.
+
+(* Operations of the correspondence check and what is observed after each of them. *)
+Inductive op : Set :=
+| OpW (sa da : Z)      (* witness_token_pass(sa, da) *)
+| OpC                  (* claim_token() *)
+| OpN (a : Z)          (* set_next_station(a) *)
+| OpR (a : Z).         (* remove_station(a) *)
+
+Definition step (r : ring) (o : op) : res ring :=
+  match o with
+  | OpW sa da => witness r sa da
+  | OpC => Ok (claim_token r)
+  | OpN a => set_next_station r a
+  | OpR a => remove_station r a
+  end.
+
+Fixpoint run (r : ring) (ops : list op) : res ring :=
+  match ops with
+  | [] => Ok r
+  | o :: t => let* r' := step r o in run r' t
+  end.
+
+(* witness_token_pass over a list of (sa, da) passes *)
+Fixpoint run_w (r : ring) (passes : list (Z * Z)) : res ring :=
+  match passes with
+  | [] => Ok r
+  | (sa, da) :: t => let* r' := witness r sa da in run_w r' t
+  end.
+
+Record obs : Set := mkObs {
+  o_state : option las_state;   (* las_state as printed by Debug; None: Debug panicked *)
+  o_ready : bool;               (* ready_for_ring() *)
+  o_ns : Z;
+  o_ps : Z;
+  o_las : list Z                (* iter_active_stations() *)
+}.
+
+Definition observe (r : ring) : obs :=
+  mkObs (match debug_active r with Ok _ => Some (r_state r) | _ => None end)
+        (ready_for_ring r) (r_ns r) (r_ps r) (las_ones (r_las r)).
